@@ -696,7 +696,8 @@ async fn run(plan: &ActorPlan, cx: &mut Cx) -> Res {
                 }
                 if done {
                     let s = streams.remove(0);
-                    if alive || s.expect.is_none() {
+                    // a stream cut short by a shutdown is not judged: its task is aborted with the actor
+                    if alive {
                         finish_stream(&s)?;
                     }
                 }
